@@ -753,6 +753,8 @@ def const_set(tier):
         if n <= 3:
             fs.append(Field([(0, n)], 'e', enum=ex_enum(n), family='CUSTFULL'))
         structs.append(Struct(n, fs, family='CUSTFULL', default=(1 if n % 16 == 0 else None)))
+    # range lists naming a bit twice: whatever they compute, compile time and run time must agree
+    structs += [s_ for s_ in selfoverlap_structs('quick') if s_.n in (8, 12, 128)]
     # signed / non-contiguous / array samples on small bases
     structs += L.pack(8, L.noncontig(8, [2])[::(40 if tier == 'quick' else 6)], 'NC', per=10)
     structs += L.pack(8, L.arrays_full(8)[::(12 if tier == 'quick' else 2)], 'ARR', per=10)
